@@ -3,7 +3,15 @@ From Coq Require Import Strings.String Strings.Byte.
 From Coq Require Import List NArith ZArith.
 From Goit Require Import Bytes Obj Commit World Repo LogFacts.
 From Goit Require Import BranchFacts ChainFacts LogView LogViewFacts.
+From Goit Require Import Bridge.
 Import ListNotations.
+
+(* T0 (tie to the source): every regexp literal of the current Go source denotes
+   the same language, with the same anchoring, as the pattern of the model — proved
+   by running the verified equivalence checker on SrcRegex.v, which is regenerated
+   from /repo on every run (see Bridge.v) *)
+Theorem C14_source_patterns_are_the_models : source_patterns_agree.
+Proof. exact source_patterns. Qed.
 
 (* T1: on the parent chain l of the tip, `log -n k` prints exactly the first
    min(k, |l|) commits, newest first, each once — for every integer k, with the
@@ -88,3 +96,4 @@ Print Assumptions C14_each_once.
 Print Assumptions C14_log_on_every_reachable_repository.
 Print Assumptions C14_chain_of_every_commit.
 Print Assumptions C14_each_with_its_own_author_and_message.
+Print Assumptions C14_source_patterns_are_the_models.
